@@ -102,7 +102,7 @@ def _costs():
         return {}
 
 
-QUICK_CPU_CAP = {'C01': 600.0, 'C03': 300.0, 'C05': 600.0, 'C18': 250.0, 'C02': 90.0, 'C19': 90.0, 'C07': 40.0, 'C10': 60.0}
+QUICK_CPU_CAP = {'C01': 600.0, 'C03': 150.0, 'C05': 600.0, 'C18': 60.0, 'C02': 90.0, 'C19': 90.0, 'C07': 40.0, 'C10': 60.0}
 # CPU seconds per shape measured with the C19 harness (lib/shape_costs.json); harnesses that do less per path afford more
 
 
